@@ -5,7 +5,7 @@ cd "$(dirname "$0")"
 export GOFLAGS=-mod=mod GOPROXY=off
 mkdir -p bin build evidence replays .locks lean/Hv/Generated
 echo "[setup] extract"; (cd extract && go build -o ../bin/extract .)
-echo "[setup] facts"; bin/extract -repo "${VERIF_REPO:-/repo}" >/dev/null || true
+echo "[setup] facts"; bin/extract -repo "${VERIF_REPO:-/repo}" -out "$PWD/lean/Hv/Generated" >/dev/null || true
 echo "[setup] lake build"; (cd lean && lake build Hv Driver drv 2>&1 | grep -v '^trace' | tail -n 40)
 echo "[setup] hx"; python3 - <<'PY'
 import sys, os
